@@ -407,3 +407,43 @@ pub open spec fn ascii_lower(s: Seq<char>) -> Seq<char> { s.map_values(|c: char|
 pub assume_specification[ str::to_lowercase ](s: &str) -> (r: String)
     ensures (forall|i: int| 0 <= i < s@.len() ==> (s@[i] as u32) < 128) ==> r@ == ascii_lower(s@);
 }
+verus! {
+// ---------------------------------------------------------------- `Vec::into_iter()` adapter chains (R9: `.into_iter()` is re-emitted as `.vf_into_iter()`)
+// std's `FilterMap` adapter has no vstd model; the chain is run over a shim iterator whose
+// adapters have their std meaning (element-wise map, map-and-drop-None, collect in order).
+pub struct SeqIter<T> { pub items: Ghost<Seq<T>> }
+pub trait VfIntoIter<T>: Sized {
+    spec fn vf_seq(self) -> Seq<T>;
+    fn vf_into_iter(self) -> (r: SeqIter<T>)
+        ensures r.items@ == self.vf_seq();
+}
+impl<T> VfIntoIter<T> for Vec<T> {
+    open spec fn vf_seq(self) -> Seq<T> { self@ }
+    #[verifier::external_body]
+    fn vf_into_iter(self) -> (r: SeqIter<T>) { unimplemented!() }
+}
+pub open spec fn vf_opt_some<B>() -> spec_fn(Option<B>) -> bool { |o: Option<B>| o is Some }
+pub open spec fn vf_opt_get<B>() -> spec_fn(Option<B>) -> B { |o: Option<B>| o->Some_0 }
+impl<T> SeqIter<T> {
+    pub open spec fn remaining(&self) -> Seq<T> { self.items@ }
+    #[verifier::external_body]
+    pub fn map<B, F: FnMut(T) -> B>(self, f: F) -> (r: SeqIter<B>)
+        requires forall|i: int| 0 <= i < self.items@.len() ==> call_requires(f, (#[trigger] self.items@[i],)),
+        ensures
+            r.items@.len() == self.items@.len(),
+            forall|i: int| 0 <= i < self.items@.len() ==> call_ensures(f, (self.items@[i],), #[trigger] r.items@[i]),
+    { unimplemented!() }
+    #[verifier::external_body]
+    pub fn filter_map<B, F: FnMut(T) -> Option<B>>(self, f: F) -> (r: SeqIter<B>)
+        requires forall|i: int| 0 <= i < self.items@.len() ==> call_requires(f, (#[trigger] self.items@[i],)),
+        ensures
+            forall|g: spec_fn(T) -> Option<B>| #![trigger self.items@.map_values(g)]
+                (forall|a: T, o: Option<B>| #[trigger] call_ensures(f, (a,), o) ==> o == g(a))
+                ==> r.items@ == self.items@.map_values(g).filter(vf_opt_some::<B>()).map_values(vf_opt_get::<B>()),
+    { unimplemented!() }
+    #[verifier::external_body]
+    pub fn collect(self) -> (r: Vec<T>)
+        ensures r@ == self.items@
+    { unimplemented!() }
+}
+}
